@@ -115,6 +115,17 @@ def drive(tier):
                       {"k": "ret", "v": b2l(enc)} if k2 == "ret" else dict(exc_info(enc), k="exc"))
                 if k2 == "ret" and ww:
                     encs.append(enc)
+                if ww and len(R.recs) % 3 == 0:
+                    # the other public way to the same bytes: writing to a stream
+                    import io as _io
+
+                    def via_stream():
+                        f_ = _io.BytesIO()
+                        obj.stream_serialize(f_)
+                        return f_.getvalue()
+                    k3, enc3 = call(via_stream)
+                    R.add("wire.ser", {"kind": kind, "obj": js, "withwit": True, "variant": vi, "via": "stream"},
+                          {"k": "ret", "v": b2l(enc3)} if k3 == "ret" else dict(exc_info(enc3), k="exc"))
         return encs
 
     def reserialise_after_edits(d):
